@@ -618,7 +618,22 @@ def search_rules(rep, prog):
         others = {k: v for k, v in outer["init"].items() if k not in nG + nI + nP}
         wrongG = [k for k, v in others.items() if not nG and (zeros_of(v, like=(P,)) or (v[0] == "method" and v[2] == "copy" and v[1] == P) or (v[0] == "ext" and v[1] in ("numpy.zeros_like", "numpy.zeros", "numpy.array", "numpy.copy")))]
         wrongI = [k for k, v in others.items() if not nI and v[0] == "ext" and v[1] in ("list", "numpy.arange", "range")]
-        if len(nP) == 1 and (wrongG or wrongI):
+        # names taken from a *reduced* matrix: G = only_directed(P) is addressed by the original node names, but the name table is 0..len(X)-1 for an X selected
+        # out of P before the search (isolated nodes dropped, ...): every name after a dropped node is shifted
+        shifted = None
+        if len(nG) == 1 and not nI and not nP:
+            for k_, v_ in others.items():
+                core_ = v_
+                while core_[0] == "ext" and core_[1] in ("list", "numpy.array", "numpy.asarray") and len(core_[2]) == 1:
+                    core_ = core_[2][0]
+                if core_[0] == "ext" and core_[1] in ("range", "numpy.arange") and len(core_[2]) == 1 and core_[2][0][0] == "ext" and core_[2][0][1] == "len":
+                    X_ = core_[2][0][2][0]
+                    if X_ != P and X_[0] == "sub" and any(z == P for z in walk(X_)) and any(v2 == X_ for v2 in others.values()):
+                        shifted = (k_, X_)
+        if shifted is not None:
+            rep.bad("INDEX.init", fwhere(f2), "the name table `%s` counts the rows of the reduced matrix %s, but the result only_directed(P) is addressed by the original node names: "
+                    "after a dropped node every name is shifted" % (shifted[0], fmt(shifted[1])[:60]))
+        elif len(nP) == 1 and (wrongG or wrongI):
             rep.check("INDEX.init", False, fwhere(f2), "", "initial state of the extension search changed: %s" % "; ".join("%s = %s" % (k, fmt(others[k])[:50]) for k in wrongG + wrongI))
         else:
             rep.unk("INDEX.init", fwhere(f2), "the result / the real names are not carried by the search loop from only_directed(P) / list(range(len(P))): this form of the search is not read")
